@@ -5,7 +5,7 @@ ROOT="$(cd "$(dirname "${BASH_SOURCE[0]}")/.." && pwd)"
 for d in "$ROOT"/seeded/*/; do
   n=$(basename "$d")
   case "$n" in
-    benign-*) "$ROOT/tools/try_mutant.sh" "$n" "$d/patch.diff" C06 C07 C09 C10 C11 C12 C13 C18 ;;
+    benign-*|legal-*) "$ROOT/tools/try_mutant.sh" "$n" "$d/patch.diff" C06 C07 C09 C10 C11 C12 C13 C18 ;;
     *) t=$(echo "$n" | sed 's/^\(C[0-9][0-9]\).*/\1/'); "$ROOT/tools/try_mutant.sh" "$n" "$d/patch.diff" "$t" ;;
   esac
 done
